@@ -148,6 +148,8 @@ class Model:
             # a SQL materialization is a table: whatever order its query had is forgotten
             keep = t.det and not (t.engine or "").startswith("sql")
             return dataclasses.replace(t, rows=list(t.rows), det=keep)
+        if op == "mark":
+            return self.eval(prog[1])
         if op == "xfer":
             t = self.eval(prog[1])
             keep = t.det and not prog[2].startswith("sql") and (not self.ordered_engines or prog[2] in self.ordered_engines)
@@ -268,6 +270,8 @@ def show(prog) -> str:
         return f"{s}[{prog[2]}:{prog[3]}]"
     if op == "mat":
         return f"{s}.mat({prog[2]})"
+    if op == "mark":
+        return f"{s}.mark({prog[2]})"
     if op == "xfer":
         return f"{s}.to({prog[2]})"
     return str(prog)
